@@ -8,7 +8,6 @@ import (
 	"sync"
 	"sync/atomic"
 	"testing"
-	"testing/synctest"
 	"time"
 
 	ml "github.com/hashicorp/memberlist"
@@ -471,7 +470,7 @@ func TestC20(t *testing.T) {
 	// against peers that answer, refuse, answer late or not at all - never outlasts its deadline
 	c19Prop = "C20"
 	forCases(2*n, 205, "p", func(i int, r *rng, id string) {
-		synctest.Test(t, func(t *testing.T) { c19Probe(r, id) })
+		probeBubble(t, id, func() { c19Probe(r, id) })
 	})
 	c19Prop = "C19"
 }
